@@ -325,7 +325,7 @@ func main() {
 	rng2 := hlib.NewRng(r.Seed ^ 0x42c0ffee42)
 	n2 := 4000
 	if r.Thorough() {
-		n2 = 60000
+		n2 = 20000
 	}
 	ids2 := []int64{0, 1, 2, 3, 4, 5, 6, 7, 1000, 1<<48 - 1}
 	for c := 0; c < n2; c++ {
